@@ -193,6 +193,8 @@ def r02e(P, R):
     # leftover right branches are appended unless a branch of the same type is already present
     anys = [c for c in g.walk() if c.get("k") == "MethodCall" and c.get("method") == "any"]
     ok = any(has_field(gpv.atoms(c), BR, "type_name") for c in anys)
+    from tsrules import fast_equal_sound
+    fast_equal_sound(P, R, "R02-e")
     R.check("R02-e", "branch-leftover", ok, "right-only branches are kept (presence tested by type_name)",
             "merge_selection_trees does not test right-only branches by type_name before appending them", loc=g.loc())
 
